@@ -336,7 +336,9 @@ pub fn check_stmt(p: &Prog, ctx: &[Bind], s: &Stmt, maxlen: &mut usize) -> Resul
         }
         Stmt::Call { label, .. } => {
             let d = p.defs.iter().find(|d| d.name == *label).ok_or("call: unknown label")?;
-            if d.params.len() != ctx.len() || !d.params.iter().zip(ctx).all(|(a, b)| same_shape(a, b)) {
+            // the backends only see positions and chiralities at a call; a type annotation that
+            // differs (seen on lifted definitions in pipeline output) is not their concern
+            if d.params.len() != ctx.len() || !d.params.iter().zip(ctx).all(|(a, b)| a.chi == b.chi) {
                 return Err(format!("call {}: context does not match parameters", label.show()));
             }
             Ok(())
